@@ -32,6 +32,9 @@ func (e *Engine) registerGhosts(st *State) {
 	e.heapSorts["G_bank_supply"] = "Int"
 	e.initHeap("G_bank_bal", "(Array Addr Int)")
 	e.initHeap("G_bank_supply", "Int")
+	e.heapSorts["G_staking_bonded"] = "Int"
+	e.initHeap("G_staking_bonded", "Int")
+	e.vc.assume(app(">=", e.heapInit["G_staking_bonded"], "0"))
 	// every collections field of every keeper struct in /repo
 	for _, pkg := range e.prog.Pkgs {
 		if !strings.HasPrefix(pkg.PkgPath, modPath+"/x/") || !strings.HasSuffix(pkg.PkgPath, "/keeper") {
@@ -502,6 +505,8 @@ func (e *Engine) ghostConst(name string, env *evalEnv) (Val, bool) {
 		return Val{S: e.bankBal(env.st), T: ghostMapT, G: &ghostRef{name: "G_bank_bal", kind: "bank"}, GSt: env.st}, true
 	case "bank.supply":
 		return Val{S: e.bankSupply(env.st), T: specInt}, true
+	case "staking.bonded":
+		return Val{S: e.heap(env.st, "G_staking_bonded", "Int"), T: specInt}, true
 	}
 	parts := strings.Split(name, ".")
 	if len(parts) == 2 {
@@ -597,6 +602,15 @@ func (e *Engine) specFunc(y *ECall, env *evalEnv) (Val, bool) {
 			return Val{S: app("ctx_height", app("unwrap_ctx", c.S)), T: specInt}, true
 		}
 		return Val{S: app("ctx_height", c.S), T: specInt}, true
+	case "msgs":
+		// msgs(tx): the messages of a transaction (result of tx.GetMsgs())
+		x := arg(0)
+		e.vc.declFun("tx_msgs", []string{"Iface"}, "Slice")
+		mt := e.prog.lookupType("github.com/cosmos/cosmos-sdk/types.Msg")
+		if mt == nil {
+			return e.evalErr("sdk.Msg type not found"), true
+		}
+		return Val{S: app("tx_msgs", x.S), T: types.NewSlice(mt)}, true
 	case "zerotime":
 		return Val{S: timeZeroNs, T: specInt}, true
 	case "coins":
